@@ -86,6 +86,9 @@ struct Sim {
   long timer_countdown = -1;   // >=0: fire the timer callback after this many more instructions
   long timer_dt = 0;
   std::map<std::string, long> stats;
+  bool fs_active = false;      // file layer intercepts (from mudlib boot until backend returns)
+  bool in_boot_files = false;
+  bool fs_log = false;         // log every file call (C15)
 };
 extern Sim S;
 
@@ -97,3 +100,10 @@ int  sim_main_run(const Plan &p);
 bool parse_plan(FILE *in, Plan &p, std::string &err);
 void files_init();
 void sim_fire_timer();
+ssize_t files_read(int fd, void *buf, size_t n);
+ssize_t files_write(int fd, const void *buf, size_t n);
+bool files_close(int fd);
+void files_reset();
+void files_arm_stop(long n);
+long files_mut_calls();
+void files_set_mtime(const std::string &p, time_t t);
